@@ -4,7 +4,7 @@ extracted on every run, with least points-to facts and effect summaries that Coq
 soundness theorem; dynamic cross-check K14: bytes of every argument array before/after real apply / apply_location /
 ISIMIP steps (contiguous, strided views, float32), outputs do not share memory with inputs, repeated and interleaved
 calls under a fixed seed are bit-identical."""
-import warnings, logging
+import os, warnings, logging
 import numpy as np
 from . import common as C
 from . import realruns as R
@@ -59,6 +59,34 @@ def correspondence(res, tier, seed):
     res.rule = ("eight debiasers x {tas, pr} x window mode x memory layout (contiguous, strided view, float32); repeated / interleaved calls on one instance under a fixed seed; "
                 "public ISIMIP steps; 3-d apply with masked / integer inputs; distinct/non-trivial = distinct (debiaser, variable, window mode, layout / history) classes")
 
+FRESH = r"""
+import sys, pickle, warnings, logging
+import numpy as np
+sys.path.insert(0, sys.argv[2]); sys.path.insert(0, sys.argv[1])
+warnings.simplefilter("ignore"); logging.disable(logging.CRITICAL)
+from harness import realruns as R
+import random
+job = pickle.load(sys.stdin.buffer)
+d = R.build(job["name"], job["var"], job["mode"], random.Random(job["rseed"]))
+out = R.run(d, *job["args"], seed=job["seed"])
+sys.stdout.buffer.write(pickle.dumps(out))
+"""
+
+def fresh_process(name, var, mode, rseed, args, seed):
+    """the same call in a new interpreter: nothing any earlier call left behind (instance attributes,
+    module-level caches) can be seen there"""
+    import subprocess, pickle, sys
+    job = dict(name=name, var=var, mode=mode, rseed=rseed, args=args, seed=seed)
+    env = dict(os.environ)
+    p = subprocess.run([sys.executable, "-c", FRESH, C.REPO, C.VERIF], input=pickle.dumps(job), capture_output=True, env=env, timeout=600)
+    if p.returncode != 0:
+        raise RuntimeError("fresh interpreter failed: " + p.stderr.decode()[-300:])
+    return pickle.loads(p.stdout)
+
+def state_of(d):
+    """observable instance state: attribute names, and sizes of container-valued attributes"""
+    return {k: (len(v) if isinstance(v, (dict, list, set)) else None) for k, v in vars(d).items()}
+
 def search(res, tier, seed, deep=False):
     logging.getLogger("ibicus").setLevel(logging.CRITICAL)
     r = C.rng_for(seed, "c12-search")
@@ -84,7 +112,10 @@ def search(res, tier, seed, deep=False):
                 t2 = R.times(390, "2001-05-05")
                 inp = dict(debiaser=name, variable=var, window_mode=mode, seed=seed)
                 try:
+                    st0 = state_of(d)
                     a = R.run(d, o, h, f, tO, tO, tF, seed=9)
+                    if state_of(d) != st0:
+                        report("apply_location-changed-instance:" + name, inp, sorted(set(state_of(d).items()) ^ set(st0.items()), key=str)[:4], "apply_location added or grew an attribute of the debiaser")
                     b = R.run(d, o, h, f, tO, tO, tF, seed=9)                       # repeated call
                     _ = R.run(d, o2, h2, f2, t2[:380], t2[:380], t2, seed=1)          # unrelated call in between
                     c = R.run(d, o, h, f, tO, tO, tF, seed=9)
@@ -113,6 +144,58 @@ def search(res, tier, seed, deep=False):
                     res.case(("apply-3d", name, var, kind))
                     if before != [np.asarray(x).tobytes() for x in (O, H, F)]:
                         report("apply-modified-input:" + name, dict(inp, kind=kind), None, "apply modified one of its 3-d arguments")
+        # earlier calls with look-alike time axes: same first date, last date and length but another interior
+        # (two years swapped in storage / a calendar without 29 February), then a longer series; the reference is
+        # the same call in a fresh interpreter
+        import random as _random
+        cands = [(nm, md) for nm in R.ALL for md in ("days",)]
+        r.shuffle(cands)
+        for (name, mode) in cands[: (2 if tier == "quick" else 8)]:
+            rseed = r.randint(0, 10 ** 6)
+            d = R.build(name, "tas", mode, _random.Random(rseed))
+            rs = np.random.RandomState(r.randint(0, 10 ** 6))
+            n = 1461
+            o, h, f = R.series(rs, n), R.series(rs, n, "tas", 1.0, 1.2), R.series(rs, n, "tas", 2.0, 1.1)
+            tA = R.times(n, "1981-01-01")
+            tB = tA.copy(); tB[365:730], tB[730:1095] = tA[730:1095].copy(), tA[365:730].copy()     # years 2 and 3 swapped in storage
+            nL = 2200
+            oL, hL, fL = R.series(rs, nL), R.series(rs, nL, "tas", 1.0, 1.2), R.series(rs, nL, "tas", 2.0, 1.1)
+            tL = R.times(nL, "1981-01-01")
+            inp = dict(debiaser=name, variable="tas", window_mode=mode, rseed=rseed, seed=seed, sequence=["chronological", "two years swapped, same end points", "longer series"])
+            try:
+                _ = R.run(d, o, h, f, tA, tA, tA, seed=9)
+                got_B = R.run(d, o, h, f, tB, tB, tB, seed=9)
+                got_L = R.run(d, oL, hL, fL, tL, tL, tL, seed=9)
+                ref_B = fresh_process(name, "tas", mode, rseed, (o, h, f, tB, tB, tB), 9)
+                ref_L = fresh_process(name, "tas", mode, rseed, (oL, hL, fL, tL, tL, tL), 9)
+            except Exception as ex:
+                report("exception-in-sequence:" + name, inp, repr(ex)[:300], "a call raised after an earlier call on the same instance"); continue
+            res.case(("sequence-fresh-process", name))
+            if not (np.array_equal(got_B, ref_B, equal_nan=True) and np.array_equal(got_L, ref_L, equal_nan=True)):
+                report("depends-on-earlier-call:" + name, inp, [bool(np.array_equal(got_B, ref_B, equal_nan=True)), bool(np.array_equal(got_L, ref_L, equal_nan=True))],
+                       "the result of a call differs from the same call in a fresh interpreter: it depends on an earlier call")
+        # randomised configurations are reproducible from numpy's global seed: ISIMIP imputing missing values
+        from ibicus.debias import ISIMIP
+        for var in ("prsnratio", "pr", "hurs"):
+            d = ISIMIP.from_variable(var, running_window_mode=False)
+            rs = np.random.RandomState(r.randint(0, 10 ** 6))
+            lo, hi = {"pr": (0, 3e-4), "prsnratio": (0, 1), "hurs": (0, 100)}[var]
+            mk = lambda: np.clip(lo + (hi - lo) * rs.beta(1.2, 2.5, 400), lo, hi) * (rs.rand(400) > 0.2)
+            o, h, f = mk(), mk(), mk()
+            if var == "prsnratio":
+                for x in (o, h, f): x[rs.rand(400) < 0.1] = np.nan
+            t = R.times(400, "1981-01-01")
+            outs = []
+            try:
+                for k in range(2):
+                    np.random.seed(5)
+                    outs.append(d.apply_location(o.copy(), h.copy(), f.copy(), time_obs=t, time_cm_hist=t, time_cm_future=t))
+            except Exception as ex:
+                report("exception:ISIMIP-seed:" + var, dict(variable=var), repr(ex)[:200], "ISIMIP raised"); continue
+            res.case(("isimip-seed", var))
+            if not np.array_equal(outs[0], outs[1], equal_nan=True):
+                report("not-seed-deterministic:ISIMIP:" + var, dict(variable=var, seed=seed, missing_values=(var == "prsnratio")), None,
+                       "two calls after np.random.seed(5) with identical arguments gave different output")
         # the public ISIMIP steps reached through apply_location do not modify the caller's series
         from ibicus.debias import ISIMIP
         for var in ("pr", "tasskew", "hurs", "tas"):
